@@ -398,6 +398,15 @@ def c14_pairs(D, tier, seed):
             dec = [("embedded", list(inner), "Shared"), ("groupref", gr, list(inner), "N3", "n3", "Shared"), ("leaf", "r", "N4", "n4", "int64"),
                    ("groupref", "o", list(inner), "N5", "", "Shared")]
             pairs.append(dict(base=base, dec=dec, desc=["embedded:depth0:type-reused-as-group-%s" % gr], imports=(), aux=""))
+    # one struct type embedded as the first field of two structs of the same program (the root and a required nested group), each
+    # followed by a field of the same Go name and type but another column name; 3 and 5 columns in the embedded struct
+    for ncol in (3, 5):
+        inner = [("leaf", "r" if j % 2 == 0 else "o", "N%d" % (j + 1), "n%d" % (j + 1), ("int64", "int32", "string")[j % 3]) for j in range(ncol)]
+        child_tail = [("leaf", "r", "N7", "item_n7", "string"), ("leaf", "r", "N8", "n8", "int32")]
+        base = list(inner) + [("leaf", "r", "N7", "n7", "string"), ("group", "r", list(inner) + child_tail, "N9", "n9")]
+        dec = [("embedded", list(inner), "Audit"), ("leaf", "r", "N7", "n7", "string"),
+               ("group", "r", [("embedded", list(inner), "Audit")] + child_tail, "N9", "n9")]
+        pairs.append(dict(base=base, dec=dec, desc=["embedded:depth0+1:one-type-embedded-in-root-and-in-a-required-group-%dcols" % ncol], imports=(), aux=""))
     return pairs
 
 
